@@ -8,6 +8,9 @@ its declared type, so contiguous packed bit-fields that straddle a unit cannot b
 * C08-packed-member-alignas    : `struct __attribute__((packed)) { char a; _Alignas(8) int b; }`   chibicc 5/1 (b at 1), gcc 16/8 (b at 8)
 * C08-packed-union-bitfield    : `union __attribute__((packed)) { int x:3; char c; }`              chibicc 4/1, gcc 1/1
 Each refutes `C08_layout_Statement`; `C08_layout_partial` holds outside the regions.
+* C08-huge-struct-overflow     : `struct { char a[1<<28]; char b; }`: `struct_decl` counts bits in a C `int`; the model uses
+  unbounded `Int`, so this finding lies outside the model (stated assumption: total bits < 2^31).  `layout32` below redoes
+  the non-bit-field arm of the loop with 32-bit wrap-around and reproduces the figures the binary prints.
 -/
 import ChibiVerif.Props.C08
 
@@ -41,12 +44,6 @@ theorem C08_finding_packed_bitfield_straddle :
     structLayout true 1 (w_straddle.map SMem.toMem) = .ok ⟨10, 1, [⟨0, 0⟩, ⟨4, 0⟩, ⟨8, 0⟩]⟩ ∧
     specStruct true none w_straddle = ⟨6, 1, [⟨0, 0, 0⟩, ⟨8, 0, 8⟩, ⟨38, 4, 6⟩]⟩ := by decide
 
-/-- the same region also contains a plain overlap: `struct __attribute__((packed)) { char a:3; char b; }` puts `b` at
-    offset 0, on top of `a` (the packed arm does `mem->offset = bits / 8` without rounding `bits` up to a byte) -/
-theorem C08_finding_packed_bitfield_overlap :
-    structLayout true 1 ([⟨1, 1, 0, some 3, true⟩, ⟨1, 1, 0, none, true⟩].map SMem.toMem) = .ok ⟨2, 1, [⟨0, 0⟩, ⟨0, 0⟩]⟩ ∧
-    specStruct true none [⟨1, 1, 0, some 3, true⟩, ⟨1, 1, 0, none, true⟩] = ⟨2, 1, [⟨0, 0, 0⟩, ⟨8, 1, 0⟩]⟩ := by decide
-
 /-- C08-packed-member-alignas -/
 theorem C08_finding_packed_member_alignas :
     PackedWithMemberAlign true w_alignas = true ∧ (∀ m ∈ w_alignas, m.WF) ∧
@@ -66,6 +63,31 @@ theorem C08_layout_Statement_false : ¬ C08_layout_Statement := by
   revert this
   decide
 
+/-! ### C08-huge-struct-overflow (outside the `Int` model: 32-bit wrap-around of `bits`) -/
+
+/-- two's-complement wrap of a C `int` -/
+def wrap32 (x : Int) : Int := (x + 2147483648) % 4294967296 - 2147483648
+
+def alignTo32 (n a : Int) : Int := wrap32 (Int.tdiv (wrap32 (n + a - 1)) a * a)
+
+/-- the non-packed, non-bit-field arm of `struct_decl` with every `int` operation wrapped -/
+def loop32 : Int → List Mem → Int × List Int
+  | bits, [] => (bits, [])
+  | bits, m :: ms =>
+    let b := alignTo32 bits (m.align * 8)
+    let r := loop32 (wrap32 (b + wrap32 (m.size * 8))) ms
+    (r.1, Int.tdiv b 8 :: r.2)
+
+def w_huge : List SMem := [⟨268435456, 1, 0, none, true⟩, ⟨1, 1, 0, none, true⟩]
+
+/-- psABI: size 268435457, `b` at 268435456 (= 2^31 bits: outside the assumption of the layout theorems);
+    with 32-bit `bits` the code computes offsetof(b) = -268435455 and sizeof = -268435453, as the binary prints -/
+theorem C08_finding_huge_struct_overflow :
+    specStruct false none w_huge = ⟨268435457, 1, [⟨0, 0, 0⟩, ⟨2147483648, 268435456, 0⟩]⟩ ∧
+    (2 : Nat) ^ 31 ≤ 8 * (specStruct false none w_huge).size ∧
+    loop32 0 (w_huge.map SMem.toMem) = (-2147483632, [0, -268435455]) ∧
+    Int.tdiv (alignTo32 (-2147483632) 8) 8 = -268435453 := by decide
+
 /-! ### repaired defects (pre-fix code) -/
 
 /-- `struct_decl` before fix 7580095: unnamed bit-fields raised the alignment -/
@@ -79,7 +101,14 @@ theorem C08_fixed_unnamed_bitfield_align :
     specStruct false none ms = ⟨2, 1, [⟨0, 0, 0⟩, ⟨8, 0, 8⟩]⟩ ∧
     structLayout false 1 (ms.map SMem.toMem) = .ok ⟨2, 1, [⟨0, 0⟩, ⟨0, 8⟩]⟩ := by decide
 
-/-- `union_decl` before the packed fix: `if (ty->align < mem->align) ty->align = mem->align;` ignored `is_packed` -/
+/-- `struct_decl` before fix 1addb5f: the packed arm did `mem->offset = bits / 8` without rounding `bits` up to a byte:
+    `struct __attribute__((packed)) { char a:3; char b; }` put `b` at offset 0, on top of `a`; now (and in gcc) 1 -/
+theorem C08_fixed_packed_overlap :
+    Int.tdiv 3 8 = 0 ∧
+    structLayout true 1 ([⟨1, 1, 0, some 3, true⟩, ⟨1, 1, 0, none, true⟩].map SMem.toMem) = .ok ⟨2, 1, [⟨0, 0⟩, ⟨1, 0⟩]⟩ ∧
+    specStruct true none [⟨1, 1, 0, some 3, true⟩, ⟨1, 1, 0, none, true⟩] = ⟨2, 1, [⟨0, 0, 0⟩, ⟨8, 1, 0⟩]⟩ := by decide
+
+/-- `union_decl` before the packed fix (9b0faa6): `if (ty->align < mem->align) ty->align = mem->align;` ignored `is_packed` -/
 def unionStepOld (size align : Int) (m : Mem) : Int × Int :=
   match m.bitWidth, m.named with
   | some w, false => (if size < Int.tdiv (w + 7) 8 then Int.tdiv (w + 7) 8 else size, align)
